@@ -61,6 +61,16 @@ def run(ctx):
                 for dmin in (-5, -2, 0, 3):
                     v = [0.0 if b == 0 else (float(rng.randint(1, 9)) if fam == "int" else rng.uniform(-2, 2)) for b in pat]
                     cases.append({"e": ["lit", dmin, v], "fam": fam, "keys": [dmin, dmin + 2, 0, 1], "malformed": False, "directed": "stored zeros"})
+        # directed: products of two longer literals, over many length pairs (incl. sums of lengths next to powers of two)
+        pairs = [(8, 10), (9, 9), (10, 8), (17, 17), (16, 18), (33, 33), (8, 8), (9, 10), (12, 21), (31, 35), (7, 11), (20, 14)]
+        if not quick:
+            pairs += [(a, b) for a in range(6, 24) for b in range(6, 24, 3)] + [(32, 34), (40, 26), (64, 2), (33, 34)]
+        for (la, lb) in pairs:
+            fam = rng.choice(["int", "generic"])
+            pa = ["lit", 2 * rng.randint(-9, 3) + 1, exprs.gen_vec(rng, fam, la, zeros=False)]
+            pb = ["lit", 2 * rng.randint(-9, 3), exprs.gen_vec(rng, fam, lb, zeros=False)]
+            cases.append({"e": ["mul", pa, pb], "fam": fam, "keys": [pa[1] + pb[1], pa[1] + pb[1] + 2 * (la + lb - 2), 0, 1], "malformed": False,
+                          "directed": "long product"})
         # directed: one non-integer float term plus an integer-typed polynomial, either order, term inside / outside the stored range
         for k in range(6 if quick else 40):
             par = rng.randint(0, 1)
@@ -215,6 +225,10 @@ def run(ctx):
                 if all(x == 0 for x in v):
                     v[0] = 1.0
                 icases.append({"e": ["lit", 2 * rng.randint(-5, 3) + rng.randint(0, 1), v], "fam": fam})
+        # sign changes that happen only across exactly-zero coefficients, single terms, same-signed vectors
+        for v in ([1.0, 0.0, -1.0], [2.0, 1.0, 0.0, -1.0, -2.0], [3.0, 0.0, 0.0, -1.0, 0.0, -2.0], [1.0, 0.0, 1.0], [0.0, 2.5, 0.0], [1.0, 2.0, 3.0],
+                  [-1.0, 0.0, 0.0, 1.0], [0.5, 0.0, -0.25, 0.0, 0.125]):
+            icases.append({"e": ["lit", 2 * rng.randint(-3, 1), list(v)], "fam": "pattern"})
         if ctx.replay is not None:
             icases = [ctx.replay["case"]]
         ires = run_impl([{"fn": "pexpr", "e": exprs.p_json(c["e"]), "keys": [], "inf_norm": True} for c in icases])
